@@ -425,21 +425,25 @@ func (tree *ObjectTree) toString(w io.Writer, padBuf *bytes.Buffer, index uint32
 	}
 
 	if curObj.opcode == pOpMethod {
-		kfmt.Fprintf(w, ", argCount: %d", uint8(tree.ArgAt(curObj, 1).value.(uint64)&0x7))
+		// A method that could not be parsed completely has no flags arg
+		if argCount, ok := tree.methodArgCount(curObj); ok {
+			kfmt.Fprintf(w, ", argCount: %d", argCount)
+		}
 	}
 
 	kfmt.Fprintf(w, ", table: %d, index: %d, offset: 0x%x", curObj.tableHandle, curObj.index, curObj.amlOffset)
 	kfmt.Fprintf(w, "]")
 
-	if curObj.opcode == pOpIntMethodCall {
-		methodObj := tree.ObjectAt(curObj.value.(uint32))
-		argCount := uint8(tree.ArgAt(methodObj, 1).value.(uint64) & 0x7)
+	// Objects left behind by a table that failed to parse may lack the
+	// value or the args that a completely parsed object of their type has.
+	targetIndex, hasTarget := curObj.value.(uint32)
+	field, isField := curObj.value.(*fieldElement)
+	if methodObj := tree.ObjectAt(targetIndex); curObj.opcode == pOpIntMethodCall && hasTarget && methodObj != nil {
+		argCount, _ := tree.methodArgCount(methodObj)
 		kfmt.Fprintf(w, " -> [call to \"%s\", argCount: %d, table: %d, index: %d, offset: 0x%x]", methodObj.name[:], argCount, methodObj.tableHandle, methodObj.index, methodObj.amlOffset)
-	} else if curObj.opcode == pOpIntResolvedNamePath {
-		resolvedObj := tree.ObjectAt(curObj.value.(uint32))
+	} else if resolvedObj := tree.ObjectAt(targetIndex); curObj.opcode == pOpIntResolvedNamePath && hasTarget && resolvedObj != nil {
 		kfmt.Fprintf(w, " -> [resolved to \"%s\", table: %d, index: %d, offset: 0x%x]", nameOf(resolvedObj), resolvedObj.tableHandle, resolvedObj.index, resolvedObj.amlOffset)
-	} else if curObj.opcode == pOpIntNamedField {
-		field := curObj.value.(*fieldElement)
+	} else if curObj.opcode == pOpIntNamedField && isField {
 		kfmt.Fprintf(w, " -> [field index: %d, offset(bytes): 0x%x, width(bits): 0x%x, accType: ", field.fieldIndex, field.offset, field.width)
 		switch field.accessType {
 		case 0x00:
@@ -510,10 +514,10 @@ func (tree *ObjectTree) toString(w io.Writer, padBuf *bytes.Buffer, index uint32
 		default:
 			kfmt.Fprintf(w, ", connection: index %d]", field.connectionIndex)
 		}
-	} else if curObj.opcode == pOpStringPrefix {
-		kfmt.Fprintf(w, " -> [string value: \"%s\"]", curObj.value.([]byte))
-	} else if curObj.opcode == pOpIntNamePath {
-		kfmt.Fprintf(w, " -> [namepath: \"%s\"]", curObj.value.([]byte))
+	} else if str, isStr := curObj.value.([]byte); curObj.opcode == pOpStringPrefix && isStr {
+		kfmt.Fprintf(w, " -> [string value: \"%s\"]", str)
+	} else if curObj.opcode == pOpIntNamePath && isStr {
+		kfmt.Fprintf(w, " -> [namepath: \"%s\"]", str)
 	} else if curObj.value != nil {
 		switch v := curObj.value.(type) {
 		case uint64:
@@ -568,6 +572,19 @@ func (tree *ObjectTree) toString(w io.Writer, padBuf *bytes.Buffer, index uint32
 	}
 
 	padBuf.Truncate(padLen)
+}
+
+// methodArgCount returns the number of arguments declared by a method object,
+// i.e. bits [0:2] of its flags arg. The second return value is false if the
+// flags arg is missing or malformed.
+func (tree *ObjectTree) methodArgCount(methodObj *Object) (uint8, bool) {
+	flagsObj := tree.ArgAt(methodObj, 1)
+	if flagsObj == nil {
+		return 0, false
+	}
+
+	flags, ok := flagsObj.value.(uint64)
+	return uint8(flags & 0x7), ok
 }
 
 func hexToASCII(val uint32) byte {
